@@ -1,4 +1,372 @@
-//! C12 (placeholder, filled in after C11).
-pub async fn run(_tokens: &[&str]) -> String {
-    "TODO".to_string()
+//! C12: cancel the real `Orderer::next` future at its await points.
+//!
+//! Payload: `<mode> <step> <step> ...`
+//!   mode `direct`: the real `Orderer` over the real in-memory `SqliteStore`; an attempt `k:<n>`
+//!                  polls a fresh `next()` future by hand (counting waker) and drops it after the
+//!                  n-th poll that returned `Pending`.  Where it was cancelled is observed in the
+//!                  database: `post` = a ready row is flagged `in_queue = FALSE` although the item
+//!                  was never returned (the commit was applied), `pre` otherwise.
+//!   mode `wrap`:   the real `Orderer` over a thin wrapper store which delegates every call to the
+//!                  real `SqliteStore` and can park the calling future at a named await point:
+//!                  `begin` (in `Transaction::begin`), `take` (in `take_next_ready`), `commit0`
+//!                  (in `commit`, nothing committed yet), `commit1` (in `commit`, the database has
+//!                  applied it), `getop` (in `get_operation`); `notified` = stuck waiting for a
+//!                  notification (queue empty).  An attempt `a:<point>` polls a fresh `next()`
+//!                  future until it is parked there (or completes) and drops it.
+//!   steps: `d<x>:<deps>` deliver operation x through `Orderer::process`; `k:<n>` / `a:<point>` one
+//!          cancelled (or, if it completes first, successful) `next`.  At the end the queue is
+//!          drained with fresh `next()` calls awaited to completion.
+//! Result: one token `<where>=<x|->` per attempt, then `| [drained ids]`.
+use std::cell::RefCell;
+use std::collections::HashSet;
+use std::future::Future;
+use std::pin::Pin;
+use std::rc::Rc;
+use std::sync::Arc;
+use std::sync::atomic::{AtomicUsize, Ordering as AtomicOrdering};
+use std::task::{Context, Poll, Wake, Waker};
+use std::time::{Duration, Instant};
+
+use p2panda_core::{Hash, LogId, Topic};
+use p2panda_store::operations::OperationStore;
+use p2panda_store::orderer::{OrdererStore, OrdererTestExt};
+use p2panda_store::{SqliteError, SqliteStore, Transaction};
+use p2panda_stream::Processor;
+use p2panda_stream::orderer::Orderer;
+
+use crate::{Op, OpGraph, Step, parse_steps};
+
+// ---------------------------------------------------------------------------------------------
+// wrapper store
+// ---------------------------------------------------------------------------------------------
+
+#[derive(Default)]
+struct Ctl {
+    stop_at: Option<String>,
+    parked: Option<String>,
+    last: String,
+}
+
+#[derive(Clone)]
+struct WrapStore {
+    inner: SqliteStore,
+    ctl: Rc<RefCell<Ctl>>,
+}
+
+/// Never completes; the harness drops the surrounding future while it is parked here.
+struct Park;
+
+impl Future for Park {
+    type Output = ();
+    fn poll(self: Pin<&mut Self>, _cx: &mut Context<'_>) -> Poll<()> {
+        Poll::Pending
+    }
+}
+
+impl WrapStore {
+    async fn gate(&self, name: &str) {
+        let stop = {
+            let mut c = self.ctl.borrow_mut();
+            c.last = name.to_string();
+            c.stop_at.as_deref() == Some(name)
+        };
+        if stop {
+            self.ctl.borrow_mut().parked = Some(name.to_string());
+            Park.await;
+        }
+    }
+}
+
+impl Transaction for WrapStore {
+    type Error = SqliteError;
+    type Permit = <SqliteStore as Transaction>::Permit;
+
+    async fn begin(&self) -> Result<Self::Permit, Self::Error> {
+        self.gate("begin").await;
+        self.inner.begin().await
+    }
+
+    async fn rollback(&self, permit: Self::Permit) -> Result<(), Self::Error> {
+        self.inner.rollback(permit).await
+    }
+
+    async fn commit(&self, permit: Self::Permit) -> Result<(), Self::Error> {
+        self.gate("commit0").await;
+        let r = self.inner.commit(permit).await;
+        self.gate("commit1").await;
+        r
+    }
+}
+
+impl OrdererStore<Hash> for WrapStore {
+    type Error = SqliteError;
+
+    async fn mark_ready(&self, id: Hash) -> Result<bool, Self::Error> {
+        self.inner.mark_ready(id).await
+    }
+
+    async fn mark_pending(&self, id: Hash, dependencies: Vec<Hash>) -> Result<bool, Self::Error> {
+        self.inner.mark_pending(id, dependencies).await
+    }
+
+    async fn get_next_pending(&self, id: Hash) -> Result<Option<HashSet<(Hash, Vec<Hash>)>>, Self::Error> {
+        self.inner.get_next_pending(id).await
+    }
+
+    async fn take_next_ready(&self) -> Result<Option<Hash>, Self::Error> {
+        self.gate("take").await;
+        let r = OrdererStore::<Hash>::take_next_ready(&self.inner).await;
+        if let Ok(None) = r {
+            self.ctl.borrow_mut().last = "notified".to_string();
+        }
+        r
+    }
+
+    async fn remove_pending(&self, id: Hash) -> Result<bool, Self::Error> {
+        self.inner.remove_pending(id).await
+    }
+
+    async fn ready(&self, keys: &[Hash]) -> Result<bool, Self::Error> {
+        self.inner.ready(keys).await
+    }
+}
+
+impl OperationStore<Op, Hash> for WrapStore {
+    type Error = SqliteError;
+
+    async fn insert_operation<L: LogId>(&self, id: &Hash, operation: &Op, log_id: &L) -> Result<bool, Self::Error> {
+        self.inner.insert_operation(id, operation, log_id).await
+    }
+
+    async fn get_operation(&self, id: &Hash) -> Result<Option<Op>, Self::Error> {
+        self.gate("getop").await;
+        self.inner.get_operation(id).await
+    }
+
+    async fn get_operation_tx(&self, id: &Hash) -> Result<Option<Op>, Self::Error> {
+        self.inner.get_operation_tx(id).await
+    }
+
+    async fn has_operation(&self, id: &Hash) -> Result<bool, Self::Error> {
+        OperationStore::<Op, Hash>::has_operation(&self.inner, id).await
+    }
+
+    async fn has_operation_tx(&self, id: &Hash) -> Result<bool, Self::Error> {
+        OperationStore::<Op, Hash>::has_operation_tx(&self.inner, id).await
+    }
+
+    async fn delete_operation(&self, id: &Hash) -> Result<bool, Self::Error> {
+        OperationStore::<Op, Hash>::delete_operation(&self.inner, id).await
+    }
+
+    async fn delete_operation_payload(&self, id: &Hash) -> Result<bool, Self::Error> {
+        OperationStore::<Op, Hash>::delete_operation_payload(&self.inner, id).await
+    }
+}
+
+// ---------------------------------------------------------------------------------------------
+// hand polling
+// ---------------------------------------------------------------------------------------------
+
+struct CountWaker(AtomicUsize);
+
+impl Wake for CountWaker {
+    fn wake(self: Arc<Self>) {
+        self.0.fetch_add(1, AtomicOrdering::SeqCst);
+    }
+    fn wake_by_ref(self: &Arc<Self>) {
+        self.0.fetch_add(1, AtomicOrdering::SeqCst);
+    }
+}
+
+/// Lets spawned tasks (the rollback task of a dropped permit) and the SQLite worker make progress.
+async fn settle() {
+    for _ in 0..3 {
+        tokio::task::yield_now().await;
+        tokio::time::sleep(Duration::from_millis(1)).await;
+    }
+}
+
+/// How long a future may stay without wake-up before it counts as blocked (waiting for `notified`).
+const STUCK: Duration = Duration::from_millis(150);
+
+enum Polled<T> {
+    Ready(T),
+    /// dropped after the budget of pending polls / when parked
+    Dropped,
+    /// no wake-up arrived: blocked on something only another caller can release
+    Stuck,
+}
+
+/// Polls `fut` by hand. `budget` = number of `Pending` results after which the future is dropped
+/// (`None`: unlimited); `parked()` is asked after every `Pending`.
+async fn poll_by_hand<F, T>(fut: F, budget: Option<usize>, parked: impl Fn() -> bool) -> (Polled<T>, usize)
+where
+    F: Future<Output = T>,
+{
+    let mut fut = Box::pin(fut);
+    let cw = Arc::new(CountWaker(AtomicUsize::new(0)));
+    let waker = Waker::from(cw.clone());
+    let mut cx = Context::from_waker(&waker);
+    let mut pendings = 0usize;
+    loop {
+        let seen = cw.0.load(AtomicOrdering::SeqCst);
+        match fut.as_mut().poll(&mut cx) {
+            Poll::Ready(v) => return (Polled::Ready(v), pendings),
+            Poll::Pending => {
+                pendings += 1;
+                if parked() {
+                    drop(fut);
+                    return (Polled::Dropped, pendings);
+                }
+                if let Some(b) = budget
+                    && pendings >= b
+                {
+                    drop(fut);
+                    return (Polled::Dropped, pendings);
+                }
+                // wait for a wake-up (from the SQLite worker thread or a tokio primitive)
+                let t0 = Instant::now();
+                while cw.0.load(AtomicOrdering::SeqCst) == seen {
+                    tokio::time::sleep(Duration::from_micros(200)).await;
+                    if t0.elapsed() > STUCK {
+                        drop(fut);
+                        return (Polled::Stuck, pendings);
+                    }
+                }
+            }
+        }
+    }
+}
+
+async fn counts(store: &SqliteStore) -> (usize, usize) {
+    let permit = store.begin().await.unwrap();
+    let all = store.ready_len().await;
+    let queued = store.ready_queue_len().await;
+    store.commit(permit).await.unwrap();
+    (all, queued)
+}
+
+async fn run_with<S>(steps: &[Step], attempts: &[String], order: &[bool], orderer: Orderer<Op, Hash, S>,
+                     sql: &SqliteStore, graph: &OpGraph, ctl: Option<Rc<RefCell<Ctl>>>) -> String
+where
+    S: Clone + Transaction + OrdererStore<Hash> + OperationStore<Op, Hash>,
+{
+    let mut out: Vec<String> = Vec::new();
+    let mut returned = 0usize;
+    let mut si = 0usize;
+    let mut ai = 0usize;
+    for is_attempt in order {
+        if !*is_attempt {
+            let Step::Deliver(x, _) = &steps[si] else { return "ERR step".to_string() };
+            si += 1;
+            if orderer.process(graph.ops[x].clone()).await.is_err() {
+                return "ERR process".to_string();
+            }
+            continue;
+        }
+        let a = &attempts[ai];
+        ai += 1;
+        let (res, class) = if let Some(ctl) = &ctl {
+            {
+                let mut c = ctl.borrow_mut();
+                c.stop_at = if a == "notified" || a == "none" { None } else { Some(a.clone()) };
+                c.parked = None;
+                c.last = "lock".to_string();
+            }
+            let ctl2 = ctl.clone();
+            let (res, _) = poll_by_hand(orderer.next(), None, move || ctl2.borrow().parked.is_some()).await;
+            let class = match &res {
+                Polled::Ready(_) => "done".to_string(),
+                Polled::Dropped => ctl.borrow().parked.clone().unwrap_or_else(|| "?".to_string()),
+                Polled::Stuck => ctl.borrow().last.clone(),
+            };
+            ctl.borrow_mut().stop_at = None;
+            (res, class)
+        } else {
+            let k: usize = a.parse().expect("k");
+            let (res, _) = poll_by_hand(orderer.next(), Some(k), || false).await;
+            let class = match &res {
+                Polled::Ready(_) => "done",
+                Polled::Dropped => "cut",
+                Polled::Stuck => "notified",
+            };
+            (res, class.to_string())
+        };
+        settle().await;
+        let mut class = class;
+        let tok = match res {
+            Polled::Ready(Ok(op)) => {
+                returned += 1;
+                graph.index[&op.hash].to_string()
+            }
+            Polled::Ready(Err(_)) => return "ERR next".to_string(),
+            _ => "-".to_string(),
+        };
+        if ctl.is_none() && class == "cut" {
+            // where was it cut? rows flagged out of the queue vs. items handed out so far
+            let (all, queued) = counts(sql).await;
+            class = if all - queued > returned { "post".to_string() } else { "pre".to_string() };
+            if all - queued > returned {
+                returned = all - queued; // the lost item is accounted for; later cuts are judged afresh
+            }
+        }
+        out.push(format!("{class}={tok}"));
+    }
+    // drain with fresh `next()` calls awaited to completion
+    let mut drained: Vec<u64> = Vec::new();
+    loop {
+        let (_, queued) = counts(sql).await;
+        if queued == 0 {
+            break;
+        }
+        match orderer.next().await {
+            Ok(op) => drained.push(graph.index[&op.hash]),
+            Err(_) => return "ERR drain".to_string(),
+        }
+        if drained.len() > 10_000 {
+            return "ERR drain does not end".to_string();
+        }
+    }
+    format!("{} | [{}]", out.join(" "), h_common::join(&drained, ","))
+}
+
+pub async fn run(tokens: &[&str]) -> String {
+    let mode = tokens[0];
+    let mut step_tokens: Vec<&str> = Vec::new();
+    let mut attempts: Vec<String> = Vec::new();
+    let mut order: Vec<bool> = Vec::new();
+    for t in &tokens[1..] {
+        if let Some(a) = t.strip_prefix("a:").or_else(|| t.strip_prefix("k:")) {
+            attempts.push(a.to_string());
+            order.push(true);
+        } else {
+            step_tokens.push(t);
+            order.push(false);
+        }
+    }
+    let steps = parse_steps(&step_tokens);
+    let graph = OpGraph::build(&steps);
+    let sql = SqliteStore::temporary().await;
+    {
+        let log_id = Topic::random();
+        let permit = sql.begin().await.unwrap();
+        for op in graph.ops.values() {
+            sql.insert_operation(&op.hash, op, &log_id).await.unwrap();
+        }
+        sql.commit(permit).await.unwrap();
+    }
+    match mode {
+        "direct" => {
+            let orderer: Orderer<Op, Hash, SqliteStore> = Orderer::new(sql.clone());
+            run_with(&steps, &attempts, &order, orderer, &sql, &graph, None).await
+        }
+        "wrap" => {
+            let ctl = Rc::new(RefCell::new(Ctl::default()));
+            let ws = WrapStore { inner: sql.clone(), ctl: ctl.clone() };
+            let orderer: Orderer<Op, Hash, WrapStore> = Orderer::new(ws);
+            run_with(&steps, &attempts, &order, orderer, &sql, &graph, Some(ctl)).await
+        }
+        m => format!("ERR mode {m}"),
+    }
 }
